@@ -11,6 +11,7 @@ from corr.corrlib import CorrSim, Q
 
 ID = 'C19'
 TARGETS = ['SmppVerif.Props.C19']
+THOROUGH_ROUNDS = 4
 RULE = ('(1) random operation strings (assign, delete, pop, change in place) on a real PersistingDict with its open/os.replace '
         'traced, compared with the model: which operations write, memory, what a reload sees; (2) histories of put / response / '
         'put_delivery / receipt / segmented deliver_sm / sweeps on a real SimpleCorrelator with a directory (plain and segmented '
